@@ -1,7 +1,7 @@
-\* thorough tier, exhaustive: every well-formed list over instants 0..6, answers with and without Retry-After
+\* thorough tier, exhaustive: two calls on the representative lists (what one call hands back or moves is untouched by the next)
 CONSTANTS
-  ShardLists <- MCAllLists
-  Instants = {0, 1, 2, 3, 4, 5, 6}
+  ShardLists <- MCFewLists
+  Instants = {0, 1, 2, 3, 4}
   Scenes = {"submit"}
   ChainKinds = {"x509", "precert", "precertPreIssuer"}
   Firsts = {"cert", "lax", "garbage", "none"}
@@ -12,7 +12,7 @@ CONSTANTS
   UndecodableBodies = {"notJSON", "wrongType"}
   AfterRetryStatuses = {200, 400}
   MaxAnswers = 2
-  MaxCalls = 1
+  MaxCalls = 2
   MaxMult = 8
   RootAnswers = {}
   CtxMayEnd = FALSE
